@@ -288,6 +288,29 @@ def w_frames_api(job):
                 m.AddCode(c)
                 m.AddExport(W.Export(0, "f"))
                 wb, we = 1, 1
+            elif kind == "sizes":
+                # k indexes a sequence of body lengths (every sequence of up to 4 lengths from the alphabet): bodies of different
+                # sizes in one module, growing, shrinking, equal
+                alphabet = (0, 1, 5, 70)
+                seq, x = [], k
+                L = 1
+                while x >= len(alphabet) ** L:
+                    x -= len(alphabet) ** L
+                    L += 1
+                for _ in range(L):
+                    seq.append(alphabet[x % len(alphabet)])
+                    x //= len(alphabet)
+                t = m.AddFunctionType(W.FunctionType([], []))
+                for i, ln in enumerate(seq):
+                    m.AddFunction(t)
+                    c = W.Code()
+                    c.AddLocal(W.Local(W.ValueType.i32, 1))
+                    for _ in range(ln):
+                        c.AddInstruction(W.Instruction(W.opcodes["local.get"], (0,)))
+                        c.AddInstruction(W.Instruction(W.opcodes["local.set"], (0,)))
+                    m.AddCode(c)
+                    m.AddExport(W.Export(i, f"f{i}"))
+                wb, we = len(seq), len(seq)
             elif kind == "funcs":
                 t = m.AddFunctionType(W.FunctionType([], []))
                 for i in range(k):
@@ -408,6 +431,7 @@ def run(tier, seed):
     nf = 140 if not thorough else 2200         # crosses the 127/128 entry count (quick) and 16383/16384 bytes (thorough)
     for lo in range(1, nf, 400):
         jobs.append((w_frames_api, ("funcs", lo, min(nf, lo + 400))))
+    jobs.append((w_frames_api, ("sizes", 0, 4 + 16 + 64 + 256)))
     for lo in range(1, 300 if not thorough else 17000, 3000):
         jobs.append((w_frames_api, ("name", lo, min(300 if not thorough else 17000, lo + 3000))))
     jobs.append((w_e2e, ("const", 0, len(E2E_CONSTS))))
